@@ -72,7 +72,7 @@ struct Cfg {
     std::string mode;   // "" = all keys, "c01" = only C01: keys, "c02" = only C02: keys (C02:harness:* always)
     std::string tier = "quick";
     uint64_t seed = 1;
-    int workers = 12;
+    int workers = 16;
     int depth = 0;
     int perDoc = -1;
     bool mutations = true, probes = true;
@@ -135,6 +135,12 @@ static std::string fam(const std::string &name)
 static bool isHeavyKind(int k) { return k == M_ATTR_LONG || k == M_TEXT_LONG || k == M_WIDE || k == M_DEEP; }
 
 static bool keyInMode(const std::string &key);
+// quick tier probes only these templates (thorough: all)
+static bool quickTemplate(size_t t)
+{
+    std::string n = templates()[t].name;
+    return n == "message" || n == "iq-roster" || n == "data-form" || n == "pubsub-event" || n == "element";
+}
 static std::vector<vt::Codec> g_table;
 static std::vector<Doc> g_docs;          // regress + corpus + sub-elements
 static std::vector<Node> g_nodes;        // parsed (same index)
@@ -277,7 +283,7 @@ static auto timed(Status *st, F &&f)
 
 // The whole oracle chain for one input document. onlyParser >= 0 restricts to one parser; probeTag != "" prints T lines.
 static void explore(const QByteArray &in, const std::string &docId, const std::string &mutDesc, int onlyParser, int resumeParser,
-                    Status *st, int &samplesLeft, const std::string &probeTag, bool isMutant)
+                    Status *st, int &samplesLeft, const std::string &probeTag, bool isMutant, bool typedOnly = false)
 {
     QDomDocument inDoc;
     arm(120);
@@ -303,6 +309,7 @@ static void explore(const QByteArray &in, const std::string &docId, const std::s
         const vt::Codec &c = g_table[p];
         if (!g_cfg.only.empty() && c.name.find(g_cfg.only) == std::string::npos) continue;
         if (!onlyFamily.empty() && fam(c.name) != onlyFamily) continue;
+        if (typedOnly && !c.typeChecked) continue;
         st->parser = int(p);
         st->phase = PH_ADMIT;
         st->counters[C_ADMIT_CALLS]++;
@@ -457,7 +464,9 @@ static void runItem(const Work &w, int itemIdx, int resumeParser, Status *st, in
         st->counters[C_KIND0 - 1]++;
         int saved = g_cfg.cpuBudget;
         if (g_docs[w.doc].id.rfind("t-", 0) == 0) g_cfg.cpuBudget = 600;
-        explore(g_docs[w.doc].xml, g_docs[w.doc].id, "", -1, resumeParser, st, samplesLeft, "", false);
+        // quick tier: the extracted sub-elements exist to feed the parsers of embedded elements, so only parsers with a type check get
+        // them there (parsers without one still get every top-level document; thorough tier: everything to everyone)
+        explore(g_docs[w.doc].xml, g_docs[w.doc].id, "", -1, resumeParser, st, samplesLeft, "", false, g_cfg.tier == "quick" && size_t(w.doc) >= g_nTop);
         g_cfg.cpuBudget = saved;
         break;
     }
@@ -554,12 +563,13 @@ int main(int argc, char **argv)
         else if (s == "--shrink-xml") g_cfg.shrinkFile = next();
         else if (s == "--single-probe") g_cfg.singleProbe = next();   // <template index>,<shape index>,<size>
     }
+    if (g_cfg.mode == "c01") g_cfg.probes = false;   // the scaling / big-depth probes only have C02 keys
     if (g_cfg.workers < 1) g_cfg.workers = 1;
     if (g_cfg.workers > 32) g_cfg.workers = 32;
     bool quick = g_cfg.tier == "quick";
-    if (g_cfg.depth <= 0) g_cfg.depth = quick ? 1000 : 10000;
-    if (g_cfg.perDoc < 0) g_cfg.perDoc = quick ? 3 : 24;
-    if (g_cfg.sweepShare < 0) g_cfg.sweepShare = quick ? 5 : 100;
+    if (g_cfg.depth <= 0) g_cfg.depth = quick ? 600 : 10000;
+    if (g_cfg.perDoc < 0) g_cfg.perDoc = quick ? 1 : 24;
+    if (g_cfg.sweepShare < 0) g_cfg.sweepShare = quick ? 3 : 100;
 
     {   // registers the QXmppExportData extension parsers (roster, vcard) as a real client does
         QXmppClient registrar;
@@ -815,13 +825,14 @@ int main(int argc, char **argv)
         runStage("s0", work, 24);
     }
     // ---- stage 1: scaling probes
-    std::vector<int> depthSizes = quick ? std::vector<int> { 100, 400 } : std::vector<int> { 100, 200, 400, 800 };
+    std::vector<int> depthSizes = quick ? std::vector<int> { 64, 256 } : std::vector<int> { 100, 200, 400, 800 };
     std::vector<int> childSizes = quick ? std::vector<int> { 250, 1000 } : std::vector<int> { 1000, 2000, 4000, 8000 };
     std::vector<int> lenSizes = quick ? std::vector<int> { 1 << 16, 1 << 18 } : std::vector<int> { 1 << 16, 1 << 18, 1 << 20 };
     if (g_cfg.probes) {
         std::vector<Work> work;
         for (size_t t = 0; t < templates().size(); t++)
             for (int sh = 0; sh < SH_COUNT; sh++) {
+                if (quick && (sh == SH_DEPTH_UNIT || !quickTemplate(t))) continue;
                 const auto &sizes = (sh == SH_DEPTH || sh == SH_DEPTH_UNIT) ? depthSizes : sh == SH_CHILDREN ? childSizes : lenSizes;
                 for (int sz : sizes) work.push_back({ W_PROBE, int(t), -1, -1, -1, sh, sz });
             }
@@ -870,13 +881,14 @@ int main(int argc, char **argv)
         long skippedSlow = 0;
         for (size_t t = 0; t < templates().size(); t++)
             for (size_t p = 0; p < g_table.size(); p++) {
+                if (quick && !(std::string(templates()[t].name) == "message" || std::string(templates()[t].name) == "element")) continue;
                 // only pairs that were admitted in stage 1
                 bool any = false;
                 for (int sh : { SH_DEPTH, SH_DEPTH_UNIT }) any |= timings.count(g_table[p].name + "\t" + templates()[t].name + "\t" + std::to_string(sh)) > 0;
                 if (!any) continue;
                 if (slow.count(fam(g_table[p].name)) || probeCrashed.count(g_table[p].name)) { skippedSlow++; continue; }
                 work.push_back({ W_PROBE, int(t), -1, -1, int(p), SH_DEPTH, g_cfg.depth });
-                work.push_back({ W_PROBE, int(t), -1, -1, int(p), SH_DEPTH_UNIT, g_cfg.depth });
+                if (!quick) work.push_back({ W_PROBE, int(t), -1, -1, int(p), SH_DEPTH_UNIT, g_cfg.depth });
             }
         vh::stat("bigdepth_pairs_skipped_superlinear", skippedSlow);
         vh::stat("bigdepth_items", long(work.size()));
@@ -904,9 +916,9 @@ int main(int argc, char **argv)
         int perSub = std::max(1, g_cfg.perDoc / 6);   // top-level documents get perDoc mutants each, extracted sub-elements perDoc/6
         for (int m = 0; m < g_cfg.perDoc; m++)
             for (size_t i = g_nRegress; i < g_docs.size(); i++)
-                if (i < g_nTop || m < perSub) work.push_back({ W_MUT, int(i), m, cheap[(g++) % cheap.size()], -1, 0, 0 });
+                if (i < g_nTop || (m < perSub && (!quick || (i + g_cfg.seed) % 4 == 0))) work.push_back({ W_MUT, int(i), m, cheap[(g++) % cheap.size()], -1, 0, 0 });
         vh::Rng hr(g_cfg.seed * 77773ull + 5);
-        int quota = g_cfg.heavyQuota >= 0 ? g_cfg.heavyQuota : quick ? 8 : 40;
+        int quota = g_cfg.heavyQuota >= 0 ? g_cfg.heavyQuota : quick ? 4 : 40;
         for (int k : heavy)
             for (int q = 0; q < quota; q++) work.push_back({ W_MUT, int(g_nRegress + hr.below(uint32_t(g_docs.size() - g_nRegress))), 1000 + q, k, -1, 0, 0 });
         runStage("s3", work, 24);
